@@ -70,8 +70,8 @@ const BASE_ASSUME: &[&str] = &["the harness game is the only game: deterministic
 pub const SPECS: &[PropSpec] = &[PropSpec {
     id: "C01",
     level: "exploration",
-    quick_runs: 6000,
-    thorough_runs: 150_000,
+    quick_runs: 16_000,
+    thorough_runs: 400_000,
     default_seed: 101,
     rule: "runs are generated from C01's space (2-4 peers, 1-2 local players each, delays 0-6, windows 1-12, sparse on/off, both predictors, five input modes, tick jitter/pauses/rate ratios, per-packet loss <= 25 %, duplication <= 10 %, latency 0-150 ms with jitter, burst outages short of the timeout, 50-5000 frames, 0-2 spectators); a run is non-trivial if it had >= 1 rollback, >= 1 network fault that actually fired and >= 50 frames sealed against the serial replay; distinct = distinct 64-bit hash of the executed schedule",
     nontrivial: nt_c01,
@@ -82,8 +82,8 @@ pub const SPECS: &[PropSpec] = &[PropSpec {
 PropSpec {
     id: "C02",
     level: "exploration",
-    quick_runs: 6000,
-    thorough_runs: 150_000,
+    quick_runs: 16_000,
+    thorough_runs: 400_000,
     default_seed: 202,
     rule: "mix of C01's space (with lockstep allowed), starvation schedules (a peer paused or cut off for 1-50 s with raised timeouts, all windows 0..=12), pure lockstep runs, SyncTest sessions and runs with spectators; every request list of every call goes through the request-list automaton; non-trivial = >= 30 frames simulated and at least one rollback, lockstep stall or spectator frame; distinct = distinct executed-schedule hash",
     nontrivial: nt_c02,
@@ -94,8 +94,8 @@ PropSpec {
 PropSpec {
     id: "C03",
     level: "exploration",
-    quick_runs: 6000,
-    thorough_runs: 150_000,
+    quick_runs: 16_000,
+    thorough_runs: 400_000,
     default_seed: 303,
     rule: "C01's space without disconnects, a quarter of the runs biased to held inputs (long prediction streaks); every (value, status) of every AdvanceFrame is checked against the input-delay model and the connection status read through the accessor; non-trivial = >= 10 predicted inputs, >= 1 rollback, >= 50 sealed frames; distinct = distinct executed-schedule hash",
     nontrivial: nt_c03,
@@ -106,8 +106,8 @@ PropSpec {
 PropSpec {
     id: "C04",
     level: "exploration",
-    quick_runs: 5000,
-    thorough_runs: 120_000,
+    quick_runs: 14_000,
+    thorough_runs: 350_000,
     default_seed: 404,
     rule: "windows 0..=12 x delays x sparse x starvation (one peer paused or black-holed one/both ways for 1-50 s, timeouts raised to 120 s); non-trivial = >= 10 stalled calls (prediction limit or lockstep) and >= 30 frames simulated; distinct = distinct executed-schedule hash",
     nontrivial: nt_c04,
@@ -130,8 +130,8 @@ PropSpec {
 PropSpec {
     id: "C06",
     level: "exploration",
-    quick_runs: 8000,
-    thorough_runs: 200_000,
+    quick_runs: 10_000,
+    thorough_runs: 250_000,
     default_seed: 606,
     rule: "hosts of 1-3 peers (rollback and lockstep) with 1-2 spectators; spectator tick rate 0.25x-4x the host's, pauses 0.1-3 s, max_frames_behind 1..=59, catchup_speed 1..=70, loss up to 20 % / duplication / 150 % jitter on the host->spectator link, loss on the ack direction; in 40 % of the two-peer runs the other player dies. Every AdvanceFrame of a spectator is checked against the host's confirmed timeline (value, Disconnected status, never beyond the host's confirmed_frame()), the catch-up rule, and the justification of PredictionThreshold / SpectatorTooFarBehind; twin run without the spectators: the players' sealed timelines must be identical. Non-trivial = >= 50 spectator frames and >= 1 fault fired or catch-up call; distinct = distinct executed-schedule hash",
     nontrivial: nt_c06,
@@ -142,8 +142,8 @@ PropSpec {
 PropSpec {
     id: "C07",
     level: "exploration",
-    quick_runs: 20_000,
-    thorough_runs: 400_000,
+    quick_runs: 100_000,
+    thorough_runs: 2_500_000,
     default_seed: 707,
     rule: "two peers with 1-2 players each, optional spectator on the survivor, windows 0..=12, delays, sparse on/off, timeouts 300-3000 ms, notify 100-800 ms, survivor tick period 4-40 ms, per-packet loss/duplication; the victim stops at a seeded instant (handshake included), some of its last packets are lost, the survivor may be paused around the death; in 30 % of the runs disconnect_player is called instead. Oracles: poll-by-poll comparison of NetworkInterrupted/NetworkResumed/Disconnected with a two-timer reference model on exact virtual timestamps, C01's timeline check with the accessor's (disconnected, last_frame), the spectator-stream check, liveness of the survivor after the disconnect. Non-trivial = a Disconnected event or API disconnect happened with >= 20 frames simulated; distinct = distinct executed-schedule hash",
     nontrivial: nt_c07,
@@ -166,8 +166,8 @@ PropSpec {
 PropSpec {
     id: "C09",
     level: "exploration",
-    quick_runs: 8000,
-    thorough_runs: 200_000,
+    quick_runs: 14_000,
+    thorough_runs: 350_000,
     default_seed: 909,
     rule: "half of the runs: C01's space with desync detection on (interval 1..=12, sparse on/off, loss/duplication/reordering also of ChecksumReports) and deterministic games: no DesyncDetected may ever appear. Other half: saving not sparse, one peer's game computes different states from a seeded frame F on (consistently across its own re-simulations), ChecksumReports exempt from loss: every peer must receive DesyncDetected for a frame >= F involving the diverging peer before 1 s after its confirmed frame passes F + 4*interval + window + delay, carrying checksums the two peers really saved for that frame. Non-trivial = >= 3 checksum reports delivered and >= 1 rollback; distinct = distinct executed-schedule hash",
     nontrivial: nt_c09,
@@ -178,8 +178,8 @@ PropSpec {
 PropSpec {
     id: "C10",
     level: "exploration",
-    quick_runs: 8000,
-    thorough_runs: 200_000,
+    quick_runs: 40_000,
+    thorough_runs: 1_000_000,
     default_seed: 1010,
     rule: "3-4 peers with 1-2 players each, rollback mode (windows 1-12), delays, sparse on/off; one peer stops at a seeded instant; independently for every survivor the dying peer's packets are dropped from 0-150 ms before its death (so survivors hold different last frames for it and time it out at different instants); links between survivors only have latency and jitter. Oracles: no panic; once every survivor has disconnected the victim, all survivors' final inputs and statuses for the victim's players and their states agree on every frame sealed at all of them; survivors keep advancing. Non-trivial = packets of the dying peer were dropped for at least one survivor and >= 60 frames were simulated; distinct = distinct executed-schedule hash",
     nontrivial: nt_c10,
@@ -190,8 +190,8 @@ PropSpec {
 PropSpec {
     id: "C11",
     level: "exploration",
-    quick_runs: 12_000,
-    thorough_runs: 300_000,
+    quick_runs: 30_000,
+    thorough_runs: 800_000,
     default_seed: 1111,
     rule: "C01's space (2-3 peers, 1-2 local players, 0-2 spectators, rollback and lockstep) plus 1-8 set_input_delay(handle, 0..=6) calls per run: 20 % before the first frame, 20 % in the same tick as the previous call, the rest at seeded instants (also while stalled). Oracle: the input-delay reference model gives the true input per player and frame; owner, remotes and spectators must end with it on every sealed frame (C01/C03/C06 checks), no call may panic, nothing may stay stranded in the outgoing buffer. Non-trivial = >= 1 delay change executed after the session started plus >= 50 sealed frames; distinct = distinct executed-schedule hash",
     nontrivial: nt_c11,
@@ -202,8 +202,8 @@ PropSpec {
 PropSpec {
     id: "C12",
     level: "exploration",
-    quick_runs: 20_000,
-    thorough_runs: 400_000,
+    quick_runs: 120_000,
+    thorough_runs: 3_000_000,
     default_seed: 1212,
     rule: "60 % handshake stress (2-3 peers, 0-2 spectators, loss up to 40 %, duplication up to 20 %, latency 0-300 ms with 100 % jitter, poll cadences 1-400 ms, never-drained sessions, stray SyncReplies with never-sent nonces from the right address and from strangers), 30 % silences around the notify delay and the timeout (+-200 ms) on a two-peer link, 10 % quiet pairs (two sessions that merely poll for 60 simulated seconds). Oracles: per-address event grammar automaton, handshake accounting (a reply matches iff its nonce was sent to that address and not matched before; Running iff every address has 5 matches; NotSynchronized iff not Running), poll-by-poll timer model, event queue <= 100. Non-trivial = >= 1 handshake completed and >= 1 fault or silence fired; distinct = distinct executed-schedule hash",
     nontrivial: nt_c12,
@@ -214,8 +214,8 @@ PropSpec {
 PropSpec {
     id: "C13",
     level: "exploration",
-    quick_runs: 40_000,
-    thorough_runs: 1_000_000,
+    quick_runs: 400_000,
+    thorough_runs: 10_000_000,
     default_seed: 1313,
     rule: "degenerate simulation (one SyncTestSession, no network/clock): players 1-4, window 1-12, check distance 0..window-1 (valid) or >= window / sparse (must be rejected), delay 0-6, 30-400 frames; half of the valid runs inject a nondeterministic game step at a seeded frame (check distance >= 2) and must be reported within check_distance+2 frames naming the first affected frame; the others must never report; non-trivial = valid configuration that simulated >= 20 frames; distinct = distinct (request trace, seed) hash",
     nontrivial: nt_c13,
@@ -226,7 +226,7 @@ PropSpec {
 PropSpec {
     id: "C15",
     level: "exploration",
-    quick_runs: 990,
+    quick_runs: 1980,
     thorough_runs: 49_500,
     default_seed: 1515,
     rule: "fault-free grid: lead k in -7..=7 x symmetric constant latency 0,10,..,100 ms x fps {30,60,120} = 495 cells, each with seeded tick phase, poll period 1-2 ms (the documented main loop: poll often, advance once per frame), input delay and wall-clock skew of up to two days between the machines (quick: 2 seeds per cell, thorough: 100); window sized so that nobody stalls; 3 s warm-up, 5 s measurement. On every measured tick: frames_ahead() within 1 of +k / -k, the two values sum to within 1 of zero, ping within one tick (+1 ms) of the true round trip, remote_frames_behind equals the last quality report received and is within 1 of the other side's local_frames_behind; every WaitRecommendation carries frames_ahead() >= 3 and is >= 60 frames after the previous one; network_stats() gives no numbers in the first second. Non-trivial = >= 100 measured ticks; distinct = distinct executed-schedule hash",
@@ -238,8 +238,8 @@ PropSpec {
 PropSpec {
     id: "C16",
     level: "exploration",
-    quick_runs: 60_000,
-    thorough_runs: 1_500_000,
+    quick_runs: 120_000,
+    thorough_runs: 3_000_000,
     default_seed: 1616,
     rule: "three quarters: seeded sequences of 1-12 SessionBuilder calls (60 % coherent configurations with up to 4 perturbing calls inserted and sometimes one removed, 40 % uniformly random) over small domains (num_players 0-4, handles 0-6, 3 addresses, window/delay 0-16, fps {0,1,60}, desync {Off, On 0, On 1, On 5}, check distance 0-17, max_frames_behind {0,1,10,59,60}, catchup {0,1,2,70}) ended by start_p2p / start_synctest / start_spectator; each call's Ok/InvalidRequest is compared with a reference predicate written from the rustdoc, and every accepted configuration is run (P2P against matching simulated peers and spectators for 120 ticks with all oracles, SyncTest for 60 frames, spectator alone for 60 polls). One quarter: runs of C01's space with 2-12 misuse calls (input for a non-local handle, advance_frame with a local input missing, disconnect of a local/unknown handle, delay change or stats for the wrong player type) that must return the documented error, with a twin run without them (identical request lists and events). Non-trivial = a builder sequence with >= 3 calls, or a misuse run in which >= 2 misuse calls executed; distinct = distinct hash of (call sequence, executed schedule)",
     nontrivial: nt_c16,
@@ -250,8 +250,8 @@ PropSpec {
 PropSpec {
     id: "C17",
     level: "exploration",
-    quick_runs: 4000,
-    thorough_runs: 100_000,
+    quick_runs: 6000,
+    thorough_runs: 150_000,
     default_seed: 1717,
     rule: "C01's space (half of the runs with 3-4 peers, a third with desync detection on, rollback and lockstep, spectators); every plan is executed three times in one process with the same API calls, clock readings and per-link packet fates but different hash keys (single key vs a fresh key per map) and different handshake random numbers; request lists, final frames, per-address event sequences with their timestamps and the executed traffic schedule must be identical. Non-trivial = >= 1 rollback and >= 3 nodes or >= 3 players; distinct = distinct executed-schedule hash",
     nontrivial: nt_c17,
@@ -262,8 +262,8 @@ PropSpec {
 PropSpec {
     id: "C18",
     level: "exploration",
-    quick_runs: 1500,
-    thorough_runs: 40_000,
+    quick_runs: 2400,
+    thorough_runs: 60_000,
     default_seed: 1818,
     rule: "long runs (600-20000 frames) in six equal parts: all-local sessions without any remote; sessions whose events are never drained while unequal tick rates keep WaitRecommendations coming; hosts whose spectator stops polling for good; desync detection with lost ChecksumReports; repeated one-way input/ack outages of up to 0.9 x timeout; plain long runs of C01's space. After every API call the sizes read through the accessor must respect bounds that depend only on the configuration: event queue <= 100, pending local inputs <= local players, nothing queued for sending without remotes, unacknowledged inputs per endpoint <= 128 + window + 8, remembered received inputs <= 2 x max(2 x window, 129) + 4, pending checksums <= 64, checksum history <= 33; a silent spectator must have been disconnected. Non-trivial = >= 600 frames simulated; distinct = distinct executed-schedule hash",
     nontrivial: nt_c18,
